@@ -416,7 +416,7 @@ fn main() {
     }
 
     // one single-threaded worker PROCESS per core (see vplmut::run_workers for why)
-    let per_worker = args.pick(600usize, 30_000usize);
+    let per_worker = args.pick(600usize, 15_000usize);
     if let Some(w) = args.opt("--worker").and_then(|x| x.parse::<u64>().ok()) {
         let mut rng = Rng::new(args.seed).fork(w + 1);
         let mut out = Partial::default();
